@@ -25,6 +25,11 @@ class Layout:
         self.cont_p, self.comment_p, self.semi_p = cont_p, comment_p, semi_p
         self.features = set()
 
+    def _cw(self):
+        """text of an ordinary comment; sometimes it mentions a doc marker further along (still an ordinary comment)"""
+        extra = [f"zn7 was: integer :: old !{self.docmark} zn8 old doc", f"zn9 remark !{self.docmark} zn10", f"zn11 see !{self.predocmark} zn12 and !{self.docmark_alt} zn13"]
+        return self.rng.choice(COMMENT_WORDS + extra) if self.rng.random() < 0.3 else self.rng.choice(COMMENT_WORDS)
+
     # ------------------------------------------------------------------ free form
     def free(self, stmts: List[Stmt]) -> str:
         out: List[str] = []
@@ -66,7 +71,7 @@ class Layout:
                 # an ordinary comment directly after an alt doc block would be read as its continuation:
                 # separate with a blank line first
                 out.append("")
-                out.append(ind + "! " + rng.choice(COMMENT_WORDS))
+                out.append(ind + "! " + self._cw())
                 if rng.random() < 0.5:
                     out.append("")
                 self.features.add("comment_line")
@@ -90,7 +95,7 @@ class Layout:
             if inline:
                 lines[-1] += inline
             elif not self.plain and rng.random() < self.comment_p / 2:
-                lines[-1] += " ! " + rng.choice(COMMENT_WORDS)
+                lines[-1] += " ! " + self._cw()
                 self.features.add("trailing_comment")
             out += lines
             out += post_lines
@@ -130,12 +135,12 @@ class Layout:
                 self.features.add("leading_amp")
             line = cind + body
             if not lastp:
-                line += rng.choice([" &", "  &", " & ! " + rng.choice(COMMENT_WORDS)])
+                line += rng.choice([" &", "  &", " & ! " + self._cw()])
                 if "!" in line.split("&")[-1]:
                     self.features.add("cont_trailing_comment")
             lines.append(line)
             if not lastp and rng.random() < 0.15:
-                lines.append(rng.choice(["", cind + "! " + rng.choice(COMMENT_WORDS)]))
+                lines.append(rng.choice(["", cind + "! " + self._cw()]))
                 self.features.add("cont_interleaved_line")
         self.features.add("continuation")
         return lines
